@@ -10,10 +10,10 @@ package main
 // Blocking is not modelled: a receive on an exhausted channel yields (zero, false); `select` picks any case.
 
 import (
-	"strings"
 	"fmt"
 	"go/token"
 	"go/types"
+	"strings"
 
 	"golang.org/x/tools/go/ssa"
 )
@@ -152,6 +152,7 @@ func (e *Engine) onChanRecv(c *FnCtx, fr *Frame, st *State, ch, v Val, ok string
 		c.assumed["received values satisfy (guaranteed by the sender's step contract): "+rc.Chan+": "+rc.Text] = true
 	}
 }
+
 // onChanSend: step contracts (`onsend ch: expr`) of the verified function are obligations at each send on that channel.
 func (e *Engine) onChanSend(c *FnCtx, fr *Frame, st *State, ch, v Val, pos token.Pos) {
 	spec := c.specFor(fr)
@@ -193,7 +194,7 @@ func (e *Engine) onChanSend(c *FnCtx, fr *Frame, st *State, ch, v Val, pos token
 		o.Desc = "every value sent on " + sc.Chan + " satisfies: " + sc.Text
 	}
 }
-func (e *Engine) onChanClose(c *FnCtx, fr *Frame, st *State, ch Val, pos token.Pos)             {}
+func (e *Engine) onChanClose(c *FnCtx, fr *Frame, st *State, ch Val, pos token.Pos) {}
 
 // spec-level access to channel ghost state
 func (c *FnCtx) evalChanSpec(env *Env, x *ECall) (Val, bool) {
